@@ -9,6 +9,7 @@ import (
 	"sort"
 	"strings"
 
+	"github.com/pentops/j5/gen/j5/ext/v1/ext_j5pb"
 	"github.com/pentops/j5/lib/j5schema"
 	"google.golang.org/protobuf/proto"
 	"google.golang.org/protobuf/reflect/protodesc"
@@ -37,6 +38,23 @@ type Node struct {
 	Pkg   int   `json:"pkg"`
 	Refs  []int `json:"refs"`  // referenced nodes, in field order (messages only)
 	Shape []int `json:"shape"` // per reference: FSingle/FList/FMap
+
+	// Features outside the Coq model (used by oracle-only streams):
+	// Expose: groups of positions in Refs (FSingle) that form a proto oneof with (j5.ext.v1.oneof).expose = true,
+	// which the reflector registers as a schema of its own; Wrapper: every field is a member of one oneof
+	// named "type" (a j5 oneof wrapper message: no label field, all references single messages).
+	Expose  [][]int `json:"expose,omitempty"`
+	Wrapper bool    `json:"wrapper,omitempty"`
+}
+
+// Rich reports whether the universe uses features outside the Coq model.
+func (u *Universe) Rich() bool {
+	for _, n := range u.Nodes {
+		if n.Wrapper || len(n.Expose) > 0 {
+			return true
+		}
+	}
+	return false
 }
 
 // Universe is the type graph. Files may not import each other cyclically, so a
@@ -84,9 +102,45 @@ func (u *Universe) Valid() error {
 			if u.Nodes[j].Kind == KEnum && n.Shape[k] == FMap {
 				return fmt.Errorf("node %d: map of enum", i)
 			}
+			if n.Wrapper && (n.Shape[k] != FSingle || u.Nodes[j].Kind != KMsg) {
+				return fmt.Errorf("node %d: wrapper member %d is not a single message", i, k)
+			}
+		}
+		if n.Wrapper && (len(n.Refs) == 0 || len(n.Expose) > 0) {
+			return fmt.Errorf("node %d: bad wrapper", i)
+		}
+		seen := map[int]bool{}
+		for _, grp := range n.Expose {
+			if len(grp) == 0 {
+				return fmt.Errorf("node %d: empty oneof", i)
+			}
+			for gi, k := range grp {
+				if k < 0 || k >= len(n.Refs) || n.Shape[k] != FSingle || seen[k] || (gi > 0 && grp[gi-1] != k-1) {
+					return fmt.Errorf("node %d: bad oneof member %d", i, k)
+				}
+				seen[k] = true
+			}
 		}
 	}
 	return nil
+}
+
+// withGlobal resolves in the universe's own files first, then in the global registry
+// (for j5/ext/v1/annotations.proto).
+type withGlobal struct{ local *protoregistry.Files }
+
+func (w withGlobal) FindFileByPath(p string) (protoreflect.FileDescriptor, error) {
+	if f, err := w.local.FindFileByPath(p); err == nil {
+		return f, nil
+	}
+	return protoregistry.GlobalFiles.FindFileByPath(p)
+}
+
+func (w withGlobal) FindDescriptorByName(n protoreflect.FullName) (protoreflect.Descriptor, error) {
+	if d, err := w.local.FindDescriptorByName(n); err == nil {
+		return d, nil
+	}
+	return protoregistry.GlobalFiles.FindDescriptorByName(n)
 }
 
 // Build links the universe into descriptors.
@@ -109,6 +163,7 @@ func (u *Universe) Build() (*Built, error) {
 			Syntax:  proto.String("proto3"),
 		}
 		deps := map[int]bool{}
+		usesExt := false
 		for i, n := range u.Nodes {
 			if n.Pkg != p {
 				continue
@@ -126,11 +181,28 @@ func (u *Universe) Build() (*Built, error) {
 				continue
 			}
 			md := &descriptorpb.DescriptorProto{Name: proto.String(u.typeName(i))}
-			md.Field = append(md.Field, &descriptorpb.FieldDescriptorProto{
-				Name: proto.String("label"), JsonName: proto.String("label"), Number: proto.Int32(1),
-				Type:  descriptorpb.FieldDescriptorProto_TYPE_STRING.Enum(),
-				Label: descriptorpb.FieldDescriptorProto_LABEL_OPTIONAL.Enum(),
-			})
+			oneofOf := map[int]int32{}
+			if n.Wrapper {
+				md.OneofDecl = append(md.OneofDecl, &descriptorpb.OneofDescriptorProto{Name: proto.String("type")})
+				for k := range n.Refs {
+					oneofOf[k] = 0
+				}
+			} else {
+				md.Field = append(md.Field, &descriptorpb.FieldDescriptorProto{
+					Name: proto.String("label"), JsonName: proto.String("label"), Number: proto.Int32(1),
+					Type:  descriptorpb.FieldDescriptorProto_TYPE_STRING.Enum(),
+					Label: descriptorpb.FieldDescriptorProto_LABEL_OPTIONAL.Enum(),
+				})
+			}
+			for gi, grp := range n.Expose {
+				opts := &descriptorpb.OneofOptions{}
+				proto.SetExtension(opts, ext_j5pb.E_Oneof, &ext_j5pb.OneofOptions{Expose: true})
+				md.OneofDecl = append(md.OneofDecl, &descriptorpb.OneofDescriptorProto{Name: proto.String(fmt.Sprintf("x%d", gi)), Options: opts})
+				for _, k := range grp {
+					oneofOf[k] = int32(gi)
+				}
+				usesExt = true
+			}
 			for k, j := range n.Refs {
 				if u.Nodes[j].Pkg != p {
 					deps[u.Nodes[j].Pkg] = true
@@ -139,6 +211,9 @@ func (u *Universe) Build() (*Built, error) {
 				f := &descriptorpb.FieldDescriptorProto{
 					Name: proto.String(fname), JsonName: proto.String(fname), Number: proto.Int32(int32(2 + k)),
 					Label: descriptorpb.FieldDescriptorProto_LABEL_OPTIONAL.Enum(),
+				}
+				if oi, ok := oneofOf[k]; ok {
+					f.OneofIndex = proto.Int32(oi)
 				}
 				target := "." + u.FullName(j)
 				if u.Nodes[j].Kind == KEnum {
@@ -178,7 +253,10 @@ func (u *Universe) Build() (*Built, error) {
 		for _, d := range ds {
 			fd.Dependency = append(fd.Dependency, fmt.Sprintf("conc%s/p%d/v1/types.proto", u.Tag, d))
 		}
-		file, err := protodesc.NewFile(fd, files)
+		if usesExt {
+			fd.Dependency = append(fd.Dependency, "j5/ext/v1/annotations.proto")
+		}
+		file, err := protodesc.NewFile(fd, withGlobal{files})
 		if err != nil {
 			return nil, fmt.Errorf("package %d: %w", p, err)
 		}
@@ -362,12 +440,23 @@ func (u *Universe) CoqGraph() string {
 func (b *Built) Populate(i int, depth int) protoreflect.Message {
 	md := b.Msg[i]
 	msg := dynamicpb.NewMessage(md)
-	msg.Set(md.Fields().ByName("label"), protoreflect.ValueOfString(fmt.Sprintf("n%d", i)))
+	n := b.U.Nodes[i]
+	if !n.Wrapper {
+		msg.Set(md.Fields().ByName("label"), protoreflect.ValueOfString(fmt.Sprintf("n%d", i)))
+	}
 	if depth <= 0 {
 		return msg
 	}
-	n := b.U.Nodes[i]
+	skip := map[int]bool{} // only the first member of a oneof is set
+	for _, grp := range n.Expose {
+		for _, k := range grp[1:] {
+			skip[k] = true
+		}
+	}
 	for k, j := range n.Refs {
+		if skip[k] || (n.Wrapper && k > 0) {
+			continue
+		}
 		fd := md.Fields().ByName(protoreflect.Name(fmt.Sprintf("r%d", k)))
 		isEnum := b.U.Nodes[j].Kind == KEnum
 		switch n.Shape[k] {
